@@ -292,13 +292,30 @@ impl<'a, 's> std::io::Read for SimRead<'a, 's> {
                 }
             };
         }
-        match self.st.take_byte() {
-            Some(b) => {
-                buf[0] = b;
-                Ok(1)
+        // hand over as many bytes as the caller has room for, up to the next pending fault and
+        // up to a position-dependent chunk size (short reads are what pipes and serial lines do);
+        // today's reader asks for one byte at a time, so this is one byte
+        let pos = self.st.pos.get();
+        let until_fault = self
+            .st
+            .faults
+            .get(self.st.fidx.get())
+            .map(|(p, _)| p.saturating_sub(pos))
+            .filter(|d| *d > 0)
+            .unwrap_or(usize::MAX);
+        let chunk = 1 + (pos * 7 + 3) % 5;
+        let want = buf.len().min(until_fault).min(chunk);
+        let mut n = 0;
+        while n < want {
+            match self.st.take_byte() {
+                Some(b) => {
+                    buf[n] = b;
+                    n += 1;
+                }
+                None => break,
             }
-            None => Ok(0),
         }
+        Ok(n)
     }
 }
 
@@ -654,8 +671,31 @@ pub fn drive_push<B: Buffer>(
     alloc_fail: u64,
     final_finalize: bool,
 ) -> Vec<Obs> {
+    drive_push_from::<B>(stream, ops, alloc_fail, final_finalize, None)
+}
+
+/// like `drive_push`, optionally constructing the decoder with `Decoder::from_buf` over a buffer
+/// that still holds (as much as fits of) `dirty`
+pub fn drive_push_from<B: Buffer>(
+    stream: &[u8],
+    ops: &[(usize, PushOp)],
+    alloc_fail: u64,
+    final_finalize: bool,
+    dirty: Option<&[u8]>,
+) -> Vec<Obs> {
     let mut out = Vec::new();
-    let mut d = Decoder::<B>::new();
+    let mut d = match dirty {
+        None => Decoder::<B>::new(),
+        Some(junk) => {
+            let mut b: B = Default::default();
+            for x in junk {
+                if b.push(*x).is_err() {
+                    break;
+                }
+            }
+            Decoder::<B>::from_buf(b)
+        }
+    };
     let armed = if alloc_fail > 0 {
         Some(alloc::arm(alloc_fail))
     } else {
@@ -744,6 +784,10 @@ pub fn drive_push_kind(
     final_finalize: bool,
 ) -> Vec<Obs> {
     with_buf!(buf, B => drive_push::<B>(stream, ops, alloc_fail, final_finalize))
+}
+
+pub fn drive_push_dirty_kind(buf: BufKind, stream: &[u8], dirty: &[u8]) -> Vec<Obs> {
+    with_buf!(buf, B => drive_push_from::<B>(stream, &[], 0, true, Some(dirty)))
 }
 
 pub fn drive_decode(stream: &[u8]) -> Vec<Obs> {
